@@ -24,6 +24,54 @@ def pf_body(run):
     return None
 
 
+NEXT = "core::iter::traits::iterator::Iterator::next"
+
+
+def prepass_covers(b, append_call, site_blocks):
+    """`for f in v.iter_mut() { <site> }  ..  for f in v { store.append(f) }`: every element appended in the second loop went
+    through <site> in the first.  Holds when (1) the first loop walks `iter_mut()` of the very collection the second loop consumes,
+    (2) inside it every way from `Some(item)` back to the next step passes one of site_blocks (or leaves the function),
+    (3) the second loop is entered only over the first loop's exhausted (`None`) edge, and (4) nothing is added to the collection
+    in between."""
+    nxts = [c for c in q.live_calls(b, NEXT) if not any("tracing" in str(m) for m in (c.exp or []))]
+    src2 = None
+    for n2 in nxts:
+        if any(y[0] == "call" and q.same_call(y[1], n2) for y in walk(append_call.arg(1))):
+            src2 = n2
+    if src2 is None:
+        return False
+    prod2 = [y[1] for y in walk(src2.arg(0)) if y[0] == "call" and ("collect" in y[1].fn or y[1].fn.startswith("alloc::vec::Vec::<T>::") or y[1].fn.startswith("alloc::vec::from_elem"))]
+    for n1 in nxts:
+        if n1 is src2:
+            continue
+        chain = [y[1] for y in walk(n1.arg(0)) if y[0] == "call"]
+        if not any(c.fn.endswith("::iter_mut") for c in chain):
+            continue
+        if not any(q.same_call(c, p) for c in chain for p in prod2):
+            continue
+        some_e, none_e = [], []
+        for bb, si in b.switches():
+            cnd = strip(si["cond"])
+            if si["kind"] == "variant" and cnd[0] == "call" and q.same_call(cnd[1], n1):
+                some_e += q.edge_triples(b, bb, lambda m: m == "Some")
+                none_e += q.edge_triples(b, bb, lambda m: m == "None" or (isinstance(m, tuple) and "None" in m))
+        if not some_e or not none_e:
+            continue
+        skip = b.reachable_blocks([t for (_, t, _) in some_e], removed_blocks=list(site_blocks))
+        if n1.bb in skip:
+            continue        # an element can go round the first loop without passing the site
+        if not q.dominated(b, src2.bb, via_edges=none_e):
+            continue
+        between = b.reachable_blocks([t for (_, t, _) in none_e], removed_blocks=[src2.bb])
+        grows = [c for c in b.calls() if c.bb in between and c.fn in ("alloc::vec::Vec::<T, A>::push", "alloc::vec::Vec::<T, A>::insert", "alloc::vec::Vec::<T, A>::extend_from_slice",
+                                                                          "core::iter::traits::collect::Extend::extend")
+                 and any(q.same_call(y[1], p) for y in walk(c.arg(0)) if y[0] == "call" for p in prod2)]
+        if grows:
+            continue
+        return True
+    return False
+
+
 DRAIN_FNS = ("alloc::vec::Vec::<T, A>::drain", "core::mem::take", "core::mem::replace")
 
 
@@ -59,11 +107,11 @@ def r1(run):
                 recv_is_frame_meta = any(y[0] == "field" and y[2] == "meta" for y in walk(recv))
                 if vs and recv_is_frame_meta:
                     good.append(c)
-            run.ob(PF + "|stamp|%s" % key, bool(good) and q.dominated(b, a.bb, via_blocks=[c.bb for c in good]), a.sp,
+            run.ob(PF + "|stamp|%s" % key, bool(good) and (q.dominated(b, a.bb, via_blocks=[c.bb for c in good]) or prepass_covers(b, a, [c.bb for c in good])), a.sp,
                    "every appended output frame has meta.%s := %s.id inserted first (%d insert site(s))" % (key, who, len(good)), reason="unstamped-handler-output")
         # stamping happens after user meta is in place: it writes INTO the frame's existing meta object (get_or_insert_with), not a fresh one
         goi = [c for c in b.calls() if c.bb in b.live_blocks() and c.fn == "core::option::Option::<T>::get_or_insert_with" and any(y[0] == "field" and y[2] == "meta" for y in walk(c.arg(0)))]
-        run.ob(PF + "|stamp|merges-into-user-meta", len(goi) >= 1 and q.dominated(b, a.bb, via_blocks=[g.bb for g in goi]), a.sp,
+        run.ob(PF + "|stamp|merges-into-user-meta", len(goi) >= 1 and (q.dominated(b, a.bb, via_blocks=[g.bb for g in goi]) or prepass_covers(b, a, [g.bb for g in goi])), a.sp,
                "the stamps are merged into the frame's own meta (user keys kept, stamp keys overwritten last)", reason="unstamped-handler-output")
     c06.r4(run)
 
@@ -82,7 +130,8 @@ def r2(run):
     err_edges = q.call_result_edges(b, ev, ok=False)
     drains = output_drains(b)
     run.floor("drains of the output buffer", len(drains), 1, b.sp)
-    effects = [("append", c) for c in q.live_calls(b, C.APPEND)] + [("drain", c) for c in drains] + [("cas_insert", c) for c in q.live_calls(b, "xs::store::Store::cas_insert")]
+    # (emptying the buffer on the failure edge as well - and dropping what was taken - emits nothing: only appends and CAS writes count)
+    effects = [("append", c) for c in q.live_calls(b, C.APPEND)] + [("cas_insert", c) for c in q.live_calls(b, "xs::store::Store::cas_insert")]
     for name, c in effects:
         run.ob(PF + "|after-success|%s" % name, bool(ok_edges) and q.dominated(b, c.bb, via_edges=ok_edges), c.sp,
                "%s happens only on the success edge of the closure evaluation" % name, reason="output-before-success")
@@ -99,7 +148,8 @@ def r2(run):
     reach = b.reachable_blocks([t for (_, t, _) in err_edges]) if err_edges else set()
     leaked = [name for name, c in effects if c.bb in reach]
     rets = [strip(e) for (bb, e, raw) in b.return_defs() if bb in reach]
-    run.ob(PF + "|failure-emits-nothing", bool(err_edges) and not leaked and bool(rets) and all(x[0] == "call" and x[1].fn.endswith("from_residual") for x in rets), ev.sp,
+    run.ob(PF + "|failure-emits-nothing", bool(err_edges) and not leaked and bool(rets) and all((x[0] == "call" and x[1].fn.endswith("from_residual")) or
+                                                                                                (x[0] == "agg" and x[1].get("variant") == "Err") for x in rets), ev.sp,
            "on the failure edge nothing is drained or appended and the error is returned (the caller unregisters the handler)", reason="output-on-failure")
     # the buffer is the handler's own shared output vector
     for d in drains:
@@ -243,7 +293,8 @@ def r4(run):
     for c in chains:
         first = q.peel(c.arg(0))
         second = c.arg(1)
-        if first[0] == "call" and first[1].fn == "alloc::vec::Vec::<T, A>::drain" and any(y[0] == "call" and y[1].fn.endswith("::build") for y in walk(second)):
+        if any(y[0] == "call" and y[1].fn in DRAIN_FNS for y in walk(first)) and not any(y[0] == "call" and y[1].fn.endswith("::build") for y in walk(first)) \
+                and any(y[0] == "call" and y[1].fn.endswith("::build") for y in walk(second)):
             okc = True
     # or collected by hand: `for f in output.drain(..) { v.push(f) }  if let Some(r) = additional_frame { v.push(r) }`
     pushes = [c for c in b.calls() if c.bb in b.live_blocks() and c.fn == "alloc::vec::Vec::<T, A>::push"]
